@@ -4,7 +4,7 @@
 
      * a column of the all_logr matrix whose values (flat pseudo-sample included) all lie within r of v:
        the reference log2 lies within r of v -- ONLY the range property of the biweight location
-       (C19: qmin <= location <= qmax) is used -- and spread^2 <= 997 r^2            [column_near]
+       (C19: qmin <= location <= qmax) is used -- and spread^2 <= 62 r^2            [column_near]
      * centring: a file that is a profile plus a constant d up to eps on the bins the centre is taken
        over has a centring shift within eps of (the profile's shift - d): the median of per-chromosome
        medians moves by at most eps (median_lipschitz twice)                          [center_shift_near]
@@ -30,7 +30,7 @@ Proof.
   apply DescriptivesBiweight.biweight_location_core_range. discriminate.
 Qed.
 
-Lemma mad_to_sd_small : 4 * (mad_to_sd * mad_to_sd) <= 997.
+Lemma mad_to_sd_small : 4 * (mad_to_sd * mad_to_sd) <= 62.
 Proof. apply Qle_bool_iff. vm_compute. reflexivity. Qed.
 
 Theorem column_near col v r :
@@ -268,7 +268,7 @@ Section NoisyBlock.
   Hypothesis Hfiles : files <> [].
   Let bins := block_bins files.
 
-  (* every value of the column within r of v: the reference within r of v, spread^2 <= 997 r^2 *)
+  (* every value of the column within r of v: the reference within r of v, spread^2 <= 62 r^2 *)
   Lemma block_near i v r :
     (forall s, In s files -> Qabs (sample_value hap build sexes skip bins i s - v) <= r) ->
     Qabs (nth i (expect_flat hap build bins) 0 - v) <= r ->
@@ -674,8 +674,8 @@ End Statements.
 Lemma tolerance_radius eps : eps <= tolerance_eps -> 2 * eps <= tolerance.
 Proof. unfold tolerance_eps, tolerance. intros H. lra. Qed.
 
-(* spread^2 <= 0.15^2 needs, with the constant proved here, eps <= 1/422 *)
-Lemma tolerance_spread eps : 0 <= eps -> eps <= 1 # 422 -> spread_K * (eps * eps) <= tolerance * tolerance.
+(* spread^2 <= 0.15^2 needs, with the constant proved here, eps <= 1/105 *)
+Lemma tolerance_spread eps : 0 <= eps -> eps <= 1 # 105 -> spread_K * (eps * eps) <= tolerance * tolerance.
 Proof. unfold spread_K, tolerance. intros H0 H1. nra. Qed.
 
 Lemma Qmax2_wd' a a' b b' : a == a' -> b == b' -> Qmax2 a b == Qmax2 a' b'.
@@ -689,8 +689,8 @@ Theorem bounded_noise_spread hap build sexes skip files base eps :
   exists c, center_shift median true skip build base = Some c /\
     let a := b_log2 (nth i base d0) + c in
     consensus_spread_sq (block_column hap build sexes skip files i)
-      <= 997 * (Qmax2 (2 * eps) (Qabs a) * Qmax2 (2 * eps) (Qabs a)) /\
-    (a == 0 -> consensus_spread_sq (block_column hap build sexes skip files i) <= 3988 * (eps * eps)).
+      <= 62 * (Qmax2 (2 * eps) (Qabs a) * Qmax2 (2 * eps) (Qabs a)) /\
+    (a == 0 -> consensus_spread_sq (block_column hap build sexes skip files i) <= 248 * (eps * eps)).
 Proof.
   intros Hf Ha Hl Hn i d0 Hi Hs.
   destruct (bounded_noise_auto hap build sexes skip files base eps Hf Ha Hl Hn i d0 Hi Hs) as (c & Hc & H).
@@ -830,7 +830,7 @@ Definition sy_check (hapx : bool) : bool :=
       let x := if hapx then -1 else 0 in
       (* the values themselves *)
       forallb (fun p => Qeq_bool (r_log2 (fst p)) (snd p)) (combine rows (sy_expected x))
-      (* within 2 eps = 1/8 of the ideal levels; spread^2 <= 3988 eps^2 *)
+      (* within 2 eps = 1/8 of the ideal levels; spread^2 <= 248 eps^2 *)
       && forallb (fun p => Qle_bool (Qabs (r_log2 (fst p) - snd p)) (2 * nz_eps)
                            && Qle_bool (r_spread_sq (fst p)) (spread_K * (nz_eps * nz_eps)))
                  (combine rows [0; 0; 0; 0; 0; 0; x; -1])
